@@ -330,8 +330,10 @@ func proofBuilder(p Proof) *protocol.PreparedProofBuilder {
 	}
 	b := &protocol.PreparedProofBuilder{
 		PreprepareBlockRef: refBuilder(p.PP.Type, p.PP.Instance, p.PP.H, p.PP.V, p.PP.Hash),
-		PreprepareSender:   sigBuilder(p.PPSig),
 		PrepareBlockRef:    refBuilder(p.P.Type, p.P.Instance, p.P.H, p.P.V, p.P.Hash),
+	}
+	if len(p.PPSig.Id) > 0 || len(p.PPSig.Sig) > 0 {
+		b.PreprepareSender = sigBuilder(p.PPSig) // absent altogether when there is no signer (an "unsigned proof")
 	}
 	for _, s := range p.PSigs {
 		b.PrepareSenders = append(b.PrepareSenders, sigBuilder(s))
